@@ -182,7 +182,6 @@ func c10RichCompare(cs c10Case) string {
 	return ""
 }
 
-
 // c10VariantObs: the verdicts under every subset of the atoms of up to maxSub entries (in atom order) plus
 // the sorted extracted set; "" = unusable.
 func c10VariantObs(atoms []string, expr string, maxSub int) string {
